@@ -110,3 +110,21 @@ theorem decodeLoop_run (mc : MCfg) (hook : Hook) :
         simp only [List.length_cons, e]
 
 end Ogorek
+
+namespace Ogorek
+
+/-- Every instruction takes at least its opcode byte. -/
+theorem parses_length_le : {is : List Insn} → {bs : Bytes} → Parses bs is → is.length ≤ bs.length
+  | [], _, _ => by simp
+  | i :: is, bs, h => by
+    obtain ⟨b1, b2, rfl, _, hp, hr⟩ := h
+    have ih := parses_length_le hr
+    have : 1 ≤ b1.length := by
+      cases b1 with
+      | nil =>
+        have := hp []
+        simp [parseInsn, Rd.bind, readByte] at this
+      | cons x xs => simp
+    simp; omega
+
+end Ogorek
